@@ -1,9 +1,457 @@
-//! C03: justification model for re-executions.
-use crate::log::Stamped;
-use crate::prog::Prog;
+//! C03: every re-execution observed through `WillExecute` must be justified by a change
+//! recorded since the function was last validated.
+
+use std::collections::{BTreeMap, HashMap};
+
+use crate::log::*;
+use crate::mon::{self, Exec, Item};
+use crate::prog::Sym;
+use crate::prog::*;
 use crate::single::Runner;
 use crate::util::Counts;
 
-pub fn check(_prog: &Prog, _log: &[Stamped], _r: &Runner) -> (Vec<String>, Counts) {
-    (vec![], Counts::default())
+struct M<'a> {
+    prog: &'a Prog,
+    execs: &'a [Exec],
+    by_key: HashMap<K, Vec<usize>>,
+    /// logical activation -> [(clock of Enter, K)]
+    key_of_act: HashMap<(FnK, u32, u16, u32, u32), Vec<(u64, K)>>,
+    /// (cell, field) -> [(write revision, durability)]
+    writes: HashMap<(u32, u32), Vec<(u64, u64, u8)>>,
+    validations: HashMap<K, Vec<(u64, u64)>>,
+    discards: Vec<(u64, K)>,
+    /// struct id -> [(clock, rev, fields, exec index)]
+    made: HashMap<(u32, u32), Vec<(u64, u64, [u16; 4], usize)>>,
+    reuses: Vec<(u64, K)>,
+    intern_changed: Vec<(u64, K)>,
+    evictions: Vec<(u64, u32)>,
+    sym_ing: [u32; 5],
+    ent_ing: u32,
+    durs: Vec<u8>,
+    struct_durs: HashMap<(u32, u32), Vec<(u64, u8)>>,
+}
+
+/// Forward simulation of `ActiveQuery` durabilities: per execution (index as in
+/// `mon::executions`) the durability of its completed memo, and per tracked struct the
+/// durability it was (re-)created with over time. Interned values carry the maximum
+/// durability of the queries that interned them; only values that stay LOW (and whose type
+/// allows collection) are read as LOW dependencies.
+fn simulate_durs(log: &[Stamped]) -> (Vec<u8>, HashMap<(u32, u32), Vec<(u64, u8)>>) {
+    let mut durs: Vec<u8> = Vec::new();
+    let mut struct_durs: HashMap<(u32, u32), Vec<(u64, u8)>> = HashMap::new();
+    let mut field_dur: HashMap<(u32, u32), u8> = HashMap::new();
+    let mut memo_dur: HashMap<(FnK, u32, u16, u32, u32), u8> = HashMap::new();
+    let mut value_dur: HashMap<(u8, u32, u32), u8> = HashMap::new();
+    // per thread: stack of (exec index, act, running durability)
+    let mut stacks: HashMap<u8, Vec<(usize, ActK, u8)>> = HashMap::new();
+    for (clk, th, r) in log {
+        match r {
+            Rec::SetField(c, f, _, d) => {
+                field_dur.insert((*c, *f), *d);
+            }
+            Rec::Enter(a) => {
+                durs.push(3);
+                stacks.entry(*th).or_default().push((durs.len() - 1, *a, 3));
+            }
+            Rec::Read(k, _) => {
+                let Some(fr) = stacks.entry(*th).or_default().last_mut() else { continue };
+                match k {
+                    ReadK::In(c, f) => fr.2 = fr.2.min(field_dur.get(&(*c, *f)).copied().unwrap_or(0)),
+                    ReadK::Unt(_) => fr.2 = 0,
+                    ReadK::Call(f, n, a) => {
+                        fr.2 = fr.2.min(memo_dur.get(&(*f, *n, *a, 0, 0)).copied().unwrap_or(0))
+                    }
+                    ReadK::CallOn(f, idx, g) => {
+                        fr.2 = fr.2.min(memo_dur.get(&(*f, 0, 0, *idx, *g)).copied().unwrap_or(0))
+                    }
+                    ReadK::Field(idx, g, f) => {
+                        if *f != 0 {
+                            let d = struct_durs
+                                .get(&(*idx, *g))
+                                .and_then(|v| v.last())
+                                .map(|x| x.1)
+                                .unwrap_or(0);
+                            fr.2 = fr.2.min(d);
+                        }
+                    }
+                    ReadK::Interned(..) => {}
+                }
+            }
+            Rec::Interned(t, _, idx, g) => {
+                match stacks.entry(*th).or_default().last_mut() {
+                    Some(fr) => {
+                        let e = value_dur.entry((*t, *idx, *g)).or_insert(fr.2);
+                        *e = (*e).max(fr.2);
+                        if *e == 0 && *t != Sym::Imm as u8 {
+                            fr.2 = 0;
+                        }
+                    }
+                    None => {
+                        // top level: a value created outside any query is never reusable
+                        value_dur.entry((*t, *idx, *g)).or_insert(3);
+                    }
+                }
+            }
+            Rec::Made(idx, g, _, _, _) => {
+                if let Some(fr) = stacks.entry(*th).or_default().last() {
+                    struct_durs.entry((*idx, *g)).or_default().push((*clk, fr.2));
+                }
+            }
+            Rec::Exit(..) | Rec::Unwound(_) => {
+                if let Some((i, a, d)) = stacks.entry(*th).or_default().pop() {
+                    durs[i] = d;
+                    if matches!(r, Rec::Exit(..)) {
+                        memo_dur.insert(act_id(&a), d);
+                    }
+                }
+            }
+            _ => {}
+        }
+    }
+    (durs, struct_durs)
+}
+
+fn act_id(a: &ActK) -> (FnK, u32, u16, u32, u32) {
+    match a.f {
+        FnK::OnEnt | FnK::Spec | FnK::OnSym => (a.f, 0, 0, a.key_idx, a.key_gen),
+        _ => (a.f, a.node, a.arg, 0, 0),
+    }
+}
+
+impl M<'_> {
+    fn key_at(&self, id: (FnK, u32, u16, u32, u32), clock: u64) -> Option<K> {
+        self.key_of_act
+            .get(&id)?
+            .iter()
+            .rev()
+            .find(|(c, _)| *c <= clock)
+            .map(|x| x.1)
+    }
+
+    fn read_key(&self, r: &ReadK, clock: u64) -> Option<K> {
+        match r {
+            ReadK::Call(f, n, a) => self.key_at((*f, *n, *a, 0, 0), clock),
+            ReadK::CallOn(f, idx, g) => self.key_at((*f, 0, 0, *idx, *g), clock),
+            _ => None,
+        }
+    }
+
+    fn dur_at(&self, cell: u32, field: u32, clock: u64) -> u8 {
+        self.writes
+            .get(&(cell, field))
+            .and_then(|w| w.iter().rev().find(|(c, _, _)| *c <= clock))
+            .map(|x| x.2)
+            .unwrap_or(0)
+    }
+
+    fn last_completed_before(&self, k: &K, clock: u64) -> Option<usize> {
+        self.by_key
+            .get(k)?
+            .iter()
+            .rev()
+            .copied()
+            .find(|&i| self.execs[i].value.is_some() && self.execs[i].end <= clock)
+    }
+
+    fn exec_dur(&self, i: usize) -> u8 {
+        self.durs.get(i).copied().unwrap_or(0)
+    }
+
+    /// durability a struct was (re-)created with, as of `clock`
+    fn struct_dur(&self, idx: u32, g: u32, clock: u64) -> u8 {
+        self.struct_durs
+            .get(&(idx, g))
+            .and_then(|v| v.iter().rev().find(|(c, _)| *c <= clock))
+            .map(|x| x.1)
+            .unwrap_or(0)
+    }
+
+    fn is_noeq(&self, a: &ActK) -> bool {
+        a.f == FnK::NoEq
+    }
+
+    fn evicted_between(&self, a: &ActK, from: u64, to: u64) -> bool {
+        a.f == FnK::Lru
+            && self
+                .evictions
+                .iter()
+                .any(|(c, n)| *n == a.node && *c > from && *c < to)
+    }
+
+    /// Did dependency `r` (recorded by an execution that ended at `old_end`) change after
+    /// revision `lv` and before clock `t`?
+    fn changed_since(&self, r: &ReadK, lv: u64, old_end: u64, t: u64) -> Option<&'static str> {
+        match r {
+            ReadK::In(c, f) => self
+                .writes
+                .get(&(*c, *f))
+                .is_some_and(|w| w.iter().any(|(clk, rev, _)| *rev > lv && *clk < t))
+                .then_some("input field written"),
+            ReadK::Unt(_) => Some("untracked read"),
+            ReadK::Call(..) | ReadK::CallOn(..) => {
+                let k = self.read_key(r, old_end)?;
+                if self
+                    .discards
+                    .iter()
+                    .any(|(c, dk)| *dk == k && *c > old_end && *c < t)
+                {
+                    return Some("callee memo discarded");
+                }
+                if let ReadK::CallOn(_, idx, g) = r {
+                    let sk = K {
+                        ing: self.ent_ing,
+                        idx: *idx,
+                        gener: *g,
+                    };
+                    if self
+                        .discards
+                        .iter()
+                        .any(|(c, dk)| *dk == sk && *c > old_end && *c < t)
+                    {
+                        return Some("callee key struct discarded");
+                    }
+                }
+                let list = self.by_key.get(&k)?;
+                let mut prev: Option<usize> = None;
+                for &i in list {
+                    let e = &self.execs[i];
+                    if e.value.is_none() {
+                        continue;
+                    }
+                    if e.end >= t {
+                        break;
+                    }
+                    if e.rev > lv {
+                        match prev {
+                            None => return Some("callee had no previous value"),
+                            Some(p) => {
+                                let pe = &self.execs[p];
+                                if self.is_noeq(&e.act) {
+                                    return Some("callee is no_eq and re-executed");
+                                }
+                                if self.evicted_between(&pe.act, pe.end, e.start) {
+                                    // the evicted value is gone, so the recomputed one cannot be
+                                    // compared with it (no backdating): counts as a changed value
+                                    return Some("callee recomputed after eviction");
+                                }
+                                let differs = if e.act.f == FnK::Maker {
+                                    let a: Vec<(u32, u32)> = e.made.iter().map(|m| (m.0, m.1)).collect();
+                                    let b: Vec<(u32, u32)> = pe.made.iter().map(|m| (m.0, m.1)).collect();
+                                    a != b
+                                } else {
+                                    e.value != pe.value
+                                };
+                                if differs {
+                                    return Some("callee produced a different value");
+                                }
+                                if self.exec_dur(i) < self.exec_dur(p) {
+                                    return Some("callee became less durable");
+                                }
+                            }
+                        }
+                    }
+                    prev = Some(i);
+                }
+                // evicted callee that is itself dirty answers "changed" without executing
+                if let Some(p) = prev {
+                    if self.evicted_between(&self.execs[p].act, self.execs[p].end, t) {
+                        return Some("callee value evicted");
+                    }
+                }
+                None
+            }
+            ReadK::Field(idx, g, f) => {
+                if *f == 0 {
+                    return None;
+                }
+                let ms = self.made.get(&(*idx, *g))?;
+                let mut prev: Option<&(u64, u64, [u16; 4], usize)> = None;
+                for m in ms {
+                    if m.0 >= t {
+                        break;
+                    }
+                    if m.1 > lv {
+                        match prev {
+                            None => return Some("tracked struct created"),
+                            Some(p) => {
+                                if *f == 3 {
+                                    return Some("no_eq tracked field recreated");
+                                }
+                                if p.2[*f as usize] != m.2[*f as usize] {
+                                    return Some("tracked field recreated with a different value");
+                                }
+                                if self.struct_dur(*idx, *g, m.0) < self.struct_dur(*idx, *g, p.0) {
+                                    return Some("tracked struct became less durable");
+                                }
+                            }
+                        }
+                    }
+                    prev = Some(m);
+                }
+                None
+            }
+            ReadK::Interned(t_sym, idx, g) => {
+                let ing = self.sym_ing[*t_sym as usize];
+                if self
+                    .reuses
+                    .iter()
+                    .any(|(c, k)| k.ing == ing && k.idx == *idx && k.gener > *g && *c > old_end && *c < t)
+                {
+                    return Some("interned value reclaimed");
+                }
+                if self
+                    .intern_changed
+                    .iter()
+                    .any(|(c, k)| k.ing == ing && k.idx == *idx && *c > old_end && *c < t)
+                {
+                    return Some("interned value reclaimed");
+                }
+                None
+            }
+        }
+    }
+}
+
+pub fn check(prog: &Prog, log: &[Stamped], runner: &Runner) -> (Vec<String>, Counts) {
+    let mut viol = Vec::new();
+    let mut c = Counts::default();
+    let execs = mon::executions(log);
+    let mut by_key: HashMap<K, Vec<usize>> = HashMap::new();
+    let mut key_of_act: HashMap<(FnK, u32, u16, u32, u32), Vec<(u64, K)>> = HashMap::new();
+    for (i, e) in execs.iter().enumerate() {
+        by_key.entry(e.key).or_default().push(i);
+        key_of_act.entry(act_id(&e.act)).or_default().push((e.start, e.key));
+    }
+    let mut writes: HashMap<(u32, u32), Vec<(u64, u64, u8)>> = HashMap::new();
+    let mut validations: HashMap<K, Vec<(u64, u64)>> = HashMap::new();
+    let mut discards = Vec::new();
+    let mut made: HashMap<(u32, u32), Vec<(u64, u64, [u16; 4], usize)>> = HashMap::new();
+    let mut reuses = Vec::new();
+    let mut intern_changed = Vec::new();
+    // revision of each write = revision announced by the following WriteDone
+    let mut pending_sets: Vec<(u64, u32, u32, u8)> = Vec::new();
+    let mut rev = 1u64;
+    for (clk, _, r) in log {
+        match r {
+            Rec::SetField(cc, f, _, d) => pending_sets.push((*clk, *cc, *f, *d)),
+            Rec::WriteDone(_, r2) => {
+                rev = *r2;
+                for (cl, cc, f, d) in pending_sets.drain(..) {
+                    writes.entry((cc, f)).or_default().push((cl, rev, d));
+                }
+            }
+            Rec::Ev(Ev::DidValidate(k)) => validations.entry(*k).or_default().push((*clk, rev)),
+            Rec::Ev(Ev::DidDiscard(k)) => discards.push((*clk, *k)),
+            Rec::Ev(Ev::DidReuseInterned(k, _)) => reuses.push((*clk, *k)),
+            Rec::InternChecked(k, true) => intern_changed.push((*clk, *k)),
+            _ => {}
+        }
+    }
+    for (i, e) in execs.iter().enumerate() {
+        for (clk, it) in &e.items {
+            if let Item::Made(idx, g, f) = it {
+                made.entry((*idx, *g)).or_default().push((*clk, e.rev, *f, i));
+            }
+        }
+    }
+    for v in made.values_mut() {
+        v.sort_by_key(|m| m.0);
+    }
+    let (_, _, evictions) = crate::mon_lru::replay(prog, log);
+    let (durs, struct_durs) = simulate_durs(log);
+    let m = M {
+        prog,
+        execs: &execs,
+        by_key,
+        key_of_act,
+        writes,
+        validations,
+        discards,
+        made,
+        reuses,
+        intern_changed,
+        evictions,
+        sym_ing: *runner.ctx.sym_ing.get().unwrap_or(&[u32::MAX; 5]),
+        ent_ing: *runner.ctx.ent_ing.get().unwrap_or(&u32::MAX),
+        durs,
+        struct_durs,
+    };
+    let _ = m.prog;
+    let mut classes: BTreeMap<&'static str, u64> = BTreeMap::new();
+    for (i, e) in execs.iter().enumerate() {
+        if e.key.ing == u32::MAX {
+            continue; // no WillExecute seen (should not happen)
+        }
+        let list = &m.by_key[&e.key];
+        let pos = list.iter().position(|x| *x == i).unwrap();
+        // last execution of this key before this one
+        let Some(&pi) = list[..pos].iter().rev().next() else {
+            *classes.entry("first execution").or_default() += 1;
+            continue;
+        };
+        let old = &m.execs[pi];
+        if old.value.is_none() {
+            *classes.entry("previous execution unwound").or_default() += 1;
+            continue;
+        }
+        let t = e.start;
+        let mut lv = old.rev;
+        if let Some(vs) = m.validations.get(&e.key) {
+            for (clk, r) in vs {
+                if *clk < t && *clk > old.end {
+                    lv = lv.max(*r);
+                }
+            }
+        }
+        let mut why: Option<&'static str> = None;
+        if old.untracked {
+            why = Some("previous execution read untracked state");
+        }
+        if why.is_none() && m.evicted_between(&old.act, old.end, t) {
+            why = Some("value evicted");
+        }
+        if why.is_none()
+            && m.discards
+                .iter()
+                .any(|(clk, k)| *k == e.key && *clk > old.end && *clk < t)
+        {
+            why = Some("memo discarded");
+        }
+        if why.is_none() {
+            for (r, _) in &old.reads {
+                if let Some(w) = m.changed_since(r, lv, old.end, t) {
+                    why = Some(w);
+                    break;
+                }
+            }
+        }
+        match why {
+            Some(w) => {
+                *classes.entry(w).or_default() += 1;
+                c.inc("justified");
+            }
+            None => {
+                let deps: Vec<String> = old
+                    .reads
+                    .iter()
+                    .map(|(r, v)| format!("{r:?}={v}"))
+                    .collect();
+                viol.push(format!(
+                    "unjustified re-execution of {:?} (key {:?}) in rev {} at clock {}: last executed in rev {} (value {:?}), last validated in rev {lv}; none of its recorded dependencies changed since: [{}]",
+                    e.act,
+                    e.key,
+                    e.rev,
+                    e.start,
+                    old.rev,
+                    old.value,
+                    deps.join(", ")
+                ));
+                break;
+            }
+        }
+    }
+    for (k, v) in classes {
+        c.add(&format!("why:{k}"), v);
+    }
+    (viol, c)
 }
